@@ -151,7 +151,7 @@ static void run(int tier, int prog) {
   MV_CHECK(mtx.state == 0, "mutex state word is %ld after all threads finished (expected 0: free, nobody waiting)", (long)mtx.state);
   MV_CHECK(mtx.sleep_q->head == 0, "a thread is still on the mutex sleep queue at the end");
   mv_obs("acq=%d,%d,%d ebusy=%d,%d,%d to=%d,%d,%d", acquired[0], acquired[1], acquired[2], ebusy[0], ebusy[1], ebusy[2], timedout[0], timedout[1], timedout[2]);
-  myth_mutex_destroy(&mtx);
+  h_mutex_epilogue(&mtx, prog & 1);
   mv_finish();
 }
 
